@@ -2,9 +2,17 @@
 //! real crate over a sparse RAM block device and prints the same canonical trace lines as
 //! ocaml/fs/driver.ml.  Optionally dumps every device write (`--writes <file>`).
 use embedded_sdmmc::{
-    Block, BlockCount, BlockDevice, BlockIdx, Error, Mode, RawDirectory, RawFile, RawVolume, TimeSource, Timestamp,
+    Block, BlockCount, BlockDevice, BlockIdx, Error, LfnBuffer, Mode, RawDirectory, RawFile, RawVolume, TimeSource, Timestamp,
     VolumeIdx, VolumeManager,
 };
+use std::mem::ManuallyDrop;
+use std::sync::atomic::{AtomicBool, Ordering};
+
+/// `--raii`: every operation that has a counterpart on the RAII wrappers `Volume` / `Directory` / `File`
+/// is issued through a wrapper built around the raw handle (and forgotten afterwards, so that the handle
+/// stays open exactly as the script says); the trace must be the one of the raw API.
+static RAII: AtomicBool = AtomicBool::new(false);
+fn raii() -> bool { RAII.load(Ordering::Relaxed) }
 use std::cell::{Cell, RefCell};
 use std::collections::{HashMap, HashSet};
 use std::io::{BufRead, Write as IoWrite};
@@ -237,6 +245,8 @@ fn opt_num(s: &str) -> Option<String> {
         cluster_txt(s).map(|x| x.to_string())
     } else if s.starts_with("Some(BlockIdx(") {
         Some(until(after(s, "Some(BlockIdx(")?, &[')']).to_string())
+    } else if s.starts_with("Some(BlockCount(") {
+        Some(until(after(s, "Some(BlockCount(")?, &[')']).to_string())
     } else if s.starts_with("Some(") {
         Some(until(after(s, "Some(")?, &[')']).to_string())
     } else {
@@ -267,7 +277,21 @@ fn int_line(dbg: &str) -> Option<String> {
         let idx = until(after(chunk, "idx: VolumeIdx(")?, &[')']);
         let free = opt_num(after(chunk, "free_clusters_count: ")?)?;
         let next = opt_num(after(chunk, "next_free_cluster: ")?)?;
-        vols.push(format!("{}:{}:{}:{}", id, idx, free, next));
+        // the geometry the mount code computed (ties parse_volume / Bpb to the mount model in every script)
+        let lba = until(after(chunk, "lba_start: BlockIdx(")?, &[')']);
+        let nblocks = until(after(chunk, "num_blocks: BlockCount(")?, &[')']);
+        let spc = until(after(chunk, "blocks_per_cluster: ")?, &[',', ' ']);
+        let first_data = until(after(chunk, "first_data_block: BlockCount(")?, &[')']);
+        let fat_start = until(after(chunk, "fat_start: BlockCount(")?, &[')']);
+        let second = opt_num(after(chunk, "second_fat_start: ")?)?;
+        let cc = until(after(chunk, "cluster_count: ")?, &[',', ' ']);
+        let kind = if let Some(f16) = after(chunk, "Fat16(Fat16Info {") {
+            format!("16:{}:{}", until(after(f16, "first_root_dir_block: BlockCount(")?, &[')']), until(after(f16, "root_entries_count: ")?, &[',', ' ', '}']))
+        } else {
+            let f32i = after(chunk, "Fat32(Fat32Info {")?;
+            format!("32:{}:{}", cluster_txt(after(f32i, "first_root_dir_cluster: ")?)?, until(after(f32i, "info_location: BlockIdx(")?, &[')']))
+        };
+        vols.push(format!("{}:{}:{}:{}:{}:{}:{}:{}:{}:{}:{}:{}", id, idx, free, next, lba, nblocks, spc, first_data, fat_start, second, cc, kind));
     }
     let mut dirs = Vec::new();
     for chunk in dirs_txt.split("DirectoryInfo {").skip(1) {
@@ -311,51 +335,183 @@ fn exec<'a, const D: usize, const F: usize, const V: usize>(
     let mut cbs = Vec::new();
     let mut handle = None;
     let res = match t {
+        ["openvol", i] if raii() => res_of(vm.open_volume(VolumeIdx(i.parse().unwrap())), |v| {
+            let v = v.to_raw_volume();
+            handle = Some(vol_num(v));
+            format!("handle {}", vol_num(v))
+        }),
         ["openvol", i] => res_of(vm.open_raw_volume(VolumeIdx(i.parse().unwrap())), |v| {
             handle = Some(vol_num(v));
             format!("handle {}", vol_num(v))
         }),
+        ["closevol", v] if raii() => res_of(raw_volume(slots.h(v)).to_volume(vm).close(), |_| "unit".into()),
         ["closevol", v] => res_of(vm.close_volume(raw_volume(slots.h(v))), |_| "unit".into()),
+        ["dropvol", v] => {
+            drop(raw_volume(slots.h(v)).to_volume(vm));
+            "ok unit".into()
+        }
+        ["openroot", v] if raii() => {
+            let vol = ManuallyDrop::new(raw_volume(slots.h(v)).to_volume(vm));
+            res_of(vol.open_root_dir(), |d| {
+                let d = d.to_raw_directory();
+                handle = Some(dir_num(d));
+                format!("handle {}", dir_num(d))
+            })
+        }
         ["openroot", v] => res_of(vm.open_root_dir(raw_volume(slots.h(v))), |d| {
             handle = Some(dir_num(d));
             format!("handle {}", dir_num(d))
         }),
+        ["opendir", d, nm] if raii() => {
+            let dir = ManuallyDrop::new(raw_dir(slots.h(d)).to_directory(vm));
+            res_of(dir.open_dir(name_of(nm).as_str()), |d| {
+                let d = d.to_raw_directory();
+                handle = Some(dir_num(d));
+                format!("handle {}", dir_num(d))
+            })
+        }
         ["opendir", d, nm] => res_of(vm.open_dir(raw_dir(slots.h(d)), name_of(nm).as_str()), |d| {
             handle = Some(dir_num(d));
             format!("handle {}", dir_num(d))
         }),
+        ["chdir", d, nm] => {
+            // Directory::change_dir: the wrapper holds the new handle afterwards (the old one on failure)
+            let mut dir = ManuallyDrop::new(raw_dir(slots.h(d)).to_directory(vm));
+            let r = dir.change_dir(name_of(nm).as_str());
+            let now = dir_num(ManuallyDrop::into_inner(dir).to_raw_directory());
+            res_of(r, |_| {
+                handle = Some(now);
+                format!("handle {}", now)
+            })
+        }
+        ["closedir", d] if raii() => res_of(raw_dir(slots.h(d)).to_directory(vm).close(), |_| "unit".into()),
         ["closedir", d] => res_of(vm.close_dir(raw_dir(slots.h(d))), |_| "unit".into()),
+        ["dropdir", d] => {
+            drop(raw_dir(slots.h(d)).to_directory(vm));
+            "ok unit".into()
+        }
+        ["find", d, nm] if raii() => {
+            let dir = ManuallyDrop::new(raw_dir(slots.h(d)).to_directory(vm));
+            res_of(dir.find_directory_entry(name_of(nm).as_str()), |e| format!("entry {}", entry_line(&e)))
+        }
         ["find", d, nm] => res_of(vm.find_directory_entry(raw_dir(slots.h(d)), name_of(nm).as_str()), |e| format!("entry {}", entry_line(&e))),
         ["iter", d, rest @ ..] => {
             let mut inner: Option<String> = None;
             let mut n = 0usize;
-            let r = vm.iterate_dir(raw_dir(slots.h(d)), |e| {
+            let f = |e: &embedded_sdmmc::DirEntry| {
                 cbs.push(entry_line(e));
                 if n == 0 && rest.len() > 1 {
                     let (r, _, _) = exec(vm, slots, &rest[1..]);
                     inner = Some(r);
                 }
                 n += 1;
-            });
+            };
+            let r = if raii() {
+                let dir = ManuallyDrop::new(raw_dir(slots.h(d)).to_directory(vm));
+                dir.iterate_dir(f)
+            } else {
+                vm.iterate_dir(raw_dir(slots.h(d)), f)
+            };
             res_of(r, |_| format!("iter {}{}", n, match &inner { Some(s) => format!(" inner {}", s), None => String::new() }))
+        }
+        ["iterlfn", d, nbytes] => {
+            let mut storage = vec![0u8; nbytes.parse().unwrap()];
+            let mut lfn = LfnBuffer::new(&mut storage);
+            let mut n = 0usize;
+            let f = |e: &embedded_sdmmc::DirEntry, name: Option<&str>| {
+                cbs.push(format!("{} {}", entry_line(e), match name { Some(s) => format!("lfn {}", hex(s.as_bytes())), None => "nolfn".into() }));
+                n += 1;
+            };
+            let r = if raii() {
+                let dir = ManuallyDrop::new(raw_dir(slots.h(d)).to_directory(vm));
+                dir.iterate_dir_lfn(&mut lfn, f)
+            } else {
+                vm.iterate_dir_lfn(raw_dir(slots.h(d)), &mut lfn, f)
+            };
+            res_of(r, |_| format!("iterlfn {}", n))
+        }
+        ["open", d, nm, m] if raii() => {
+            let dir = ManuallyDrop::new(raw_dir(slots.h(d)).to_directory(vm));
+            res_of(dir.open_file_in_dir(name_of(nm).as_str(), mode_of(m)), |f| {
+                let f = f.to_raw_file();
+                handle = Some(file_num(f));
+                format!("handle {}", file_num(f))
+            })
         }
         ["open", d, nm, m] => res_of(vm.open_file_in_dir(raw_dir(slots.h(d)), name_of(nm).as_str(), mode_of(m)), |f| {
             handle = Some(file_num(f));
             format!("handle {}", file_num(f))
         }),
+        ["close", f] if raii() => res_of(raw_file(slots.h(f)).to_file(vm).close(), |_| "unit".into()),
         ["close", f] => res_of(vm.close_file(raw_file(slots.h(f))), |_| "unit".into()),
+        ["dropfile", f] => {
+            drop(raw_file(slots.h(f)).to_file(vm));
+            "ok unit".into()
+        }
+        ["flush", f] if raii() => {
+            let file = ManuallyDrop::new(raw_file(slots.h(f)).to_file(vm));
+            res_of(file.flush(), |_| "unit".into())
+        }
         ["flush", f] => res_of(vm.flush_file(raw_file(slots.h(f))), |_| "unit".into()),
         ["read", f, n] => {
             let mut buf = vec![0u8; n.parse().unwrap()];
-            res_of(vm.read(raw_file(slots.h(f)), &mut buf), |k| bytes_str(&buf[..k]))
+            let r = if raii() {
+                let file = ManuallyDrop::new(raw_file(slots.h(f)).to_file(vm));
+                file.read(&mut buf)
+            } else {
+                vm.read(raw_file(slots.h(f)), &mut buf)
+            };
+            res_of(r, |k| bytes_str(&buf[..k]))
         }
-        ["write", f, len, seed] => res_of(vm.write(raw_file(slots.h(f)), &pattern(len.parse().unwrap(), seed.parse().unwrap())), |_| "unit".into()),
+        ["write", f, len, seed] => {
+            let data = pattern(len.parse().unwrap(), seed.parse().unwrap());
+            let r = if raii() {
+                let file = ManuallyDrop::new(raw_file(slots.h(f)).to_file(vm));
+                file.write(&data)
+            } else {
+                vm.write(raw_file(slots.h(f)), &data)
+            };
+            res_of(r, |_| "unit".into())
+        }
+        ["seekstart", f, x] if raii() => {
+            let file = ManuallyDrop::new(raw_file(slots.h(f)).to_file(vm));
+            res_of(file.seek_from_start(x.parse().unwrap()), |_| "unit".into())
+        }
+        ["seekcur", f, x] if raii() => {
+            let file = ManuallyDrop::new(raw_file(slots.h(f)).to_file(vm));
+            res_of(file.seek_from_current(x.parse().unwrap()), |_| "unit".into())
+        }
+        ["seekend", f, x] if raii() => {
+            let file = ManuallyDrop::new(raw_file(slots.h(f)).to_file(vm));
+            res_of(file.seek_from_end(x.parse().unwrap()), |_| "unit".into())
+        }
         ["seekstart", f, x] => res_of(vm.file_seek_from_start(raw_file(slots.h(f)), x.parse().unwrap()), |_| "unit".into()),
         ["seekcur", f, x] => res_of(vm.file_seek_from_current(raw_file(slots.h(f)), x.parse().unwrap()), |_| "unit".into()),
         ["seekend", f, x] => res_of(vm.file_seek_from_end(raw_file(slots.h(f)), x.parse().unwrap()), |_| "unit".into()),
         ["len", f] => res_of(vm.file_length(raw_file(slots.h(f))), |x| format!("num {}", x)),
         ["off", f] => res_of(vm.file_offset(raw_file(slots.h(f))), |x| format!("num {}", x)),
         ["eof", f] => res_of(vm.file_eof(raw_file(slots.h(f))), |x| format!("bool {}", x as u8)),
+        // File::length / offset / is_eof: expect("Corrupt file ID") - a panic is a result here
+        ["wlen", f] => {
+            let file = ManuallyDrop::new(raw_file(slots.h(f)).to_file(vm));
+            format!("ok num {}", file.length())
+        }
+        ["woff", f] => {
+            let file = ManuallyDrop::new(raw_file(slots.h(f)).to_file(vm));
+            format!("ok num {}", file.offset())
+        }
+        ["weof", f] => {
+            let file = ManuallyDrop::new(raw_file(slots.h(f)).to_file(vm));
+            format!("ok bool {}", file.is_eof() as u8)
+        }
+        ["delete", d, nm] if raii() => {
+            let dir = ManuallyDrop::new(raw_dir(slots.h(d)).to_directory(vm));
+            res_of(dir.delete_file_in_dir(name_of(nm).as_str()), |_| "unit".into())
+        }
+        ["mkdir", d, nm] if raii() => {
+            let dir = ManuallyDrop::new(raw_dir(slots.h(d)).to_directory(vm));
+            res_of(dir.make_dir_in_dir(name_of(nm).as_str()), |_| "unit".into())
+        }
         ["delete", d, nm] => res_of(vm.delete_file_in_dir(raw_dir(slots.h(d)), name_of(nm).as_str()), |_| "unit".into()),
         ["mkdir", d, nm] => res_of(vm.make_dir_in_dir(raw_dir(slots.h(d)), name_of(nm).as_str()), |_| "unit".into()),
         ["label", v] => res_of(vm.get_root_volume_label(raw_volume(slots.h(v))), |l| match l {
@@ -485,6 +641,7 @@ fn main() {
     while i < args.len() {
         if args[i] == "--writes" { writes_path = Some(args[i + 1].clone()); i += 2; }
         else if args[i] == "--final" { final_path = Some(args[i + 1].clone()); i += 2; }
+        else if args[i] == "--raii" { RAII.store(true, Ordering::Relaxed); i += 1; }
         else { i += 1; }
     }
     std::panic::set_hook(Box::new(|_| {}));
@@ -495,6 +652,7 @@ fn main() {
         let t: Vec<&str> = line.split_whitespace().collect();
         match t.as_slice() {
             [] => {}
+            ["#", "RAII"] => RAII.store(true, Ordering::Relaxed),
             ["#", ..] => {}
             ["CFG", a, b, c, d] => sc.cfg = (a.parse().unwrap(), b.parse().unwrap(), c.parse().unwrap(), d.parse().unwrap()),
             ["FAULTS", rest @ ..] => sc.faults = rest.iter().map(|x| x.parse().unwrap()).collect(),
